@@ -111,9 +111,24 @@ def check(run: Run) -> None:
         if isinstance(n, ast.Call) and ast.unparse(n.func) == "compute_seal":
             call = n
     if call is None:
-        raise AnalysisError("seal_document: compute_seal call not found")
-    p_content = cs.node.args.args[0].arg  # type: ignore[attr-defined]
-    seal_chain = expand(expand(inner, cs_defs), {}, {p_content: expand(call.args[0], seal_defs)})
+        # seal_document does not go through compute_seal: the digest it stores is the value of its own HASH assignment
+        hv = None
+        for n in walk_no_nested(seal.node):
+            if isinstance(n, ast.Call) and ast.unparse(n.func) == "Assignment":
+                kw = {k.arg: k.value for k in n.keywords}
+                if isinstance(kw.get("key"), ast.Constant) and kw["key"].value == "HASH" and "value" in kw:
+                    hv = kw["value"]
+        if hv is None:
+            raise AnalysisError("seal_document: neither a compute_seal call nor a HASH assignment found")
+        seal_chain = expand(hv, seal_defs)
+        # the same function must also feed compute_seal's HASH for `octave seal` consumers of the dict: both spell the digest alike
+        cs_chain = expand(inner, cs_defs)
+        p_content = cs.node.args.args[0].arg  # type: ignore[attr-defined]
+        if ast.unparse(cs_chain).replace(p_content, "X") != ast.unparse(seal_chain).replace("emit(_remove_seal_section(doc))", "X"):
+            run.violation("R15.1", mod, seal.qualname, "digest chain (seal_document vs compute_seal)", f"seal_document stores `{ast.unparse(seal_chain)}` but compute_seal computes `{ast.unparse(cs_chain)}` over its content: the two ways of sealing disagree")
+    else:
+        p_content = cs.node.args.args[0].arg  # type: ignore[attr-defined]
+        seal_chain = expand(expand(inner, cs_defs), {}, {p_content: expand(call.args[0], seal_defs)})
     ver_defs = _single_defs(verify)
     cmp_node = None
     cfgv = CFG(verify.node)
@@ -243,6 +258,9 @@ def check(run: Run) -> None:
         digest_vars = {a.targets[0].id for a in walk_no_nested(seal.node) if isinstance(a, ast.Assign) and len(a.targets) == 1 and isinstance(a.targets[0], ast.Name) and isinstance(a.value, ast.Call) and ast.unparse(a.value.func) == "compute_seal"}
         src = ast.unparse(v)
         ok = any(src in (f"{d}['HASH'].strip('\"')", f"{d}['HASH']") for d in digest_vars)
+        if not ok and not digest_vars:
+            # no compute_seal call: the stored value must itself expand to the SHA-256 chain R15.1 compares with verification
+            ok = ast.unparse(expand(v, _single_defs(seal))) == "hashlib.sha256(emit(_remove_seal_section(doc)).encode('utf-8')).hexdigest()"
     run.instance("R15.4", mod.loc(seal.node), "seal_document: the HASH assignment stores compute_seal's digest", ok=ok)
     if not ok:
         run.violation("R15.4", mod, seal.qualname, "Assignment(key='HASH', ...)", "the stored HASH is not compute_seal's digest (through at most strip of the quotes)")
